@@ -167,7 +167,8 @@ struct Stats {
   long dv = 0, dav = 0, dpi = 0, cl = 0, soup = 0, pcb = 0;
   long dv_changed = 0, dv_minus1 = 0, dav_changed = 0, dpi_merged = 0, cl_fail = 0, cl_faces_removed = 0,
        cl_points_removed = 0, cl_values_removed = 0, cl_dup_degenerate_kept = 0, soup_merged = 0, pcb_merged = 0, strips = 0, strip_multi = 0,
-       strips_skipped_degenerate = 0, known_d14 = 0, known_unsup = 0, known_d14_seen = 0, known_unsup_seen = 0;
+       strips_skipped_degenerate = 0, strip_seam = 0, strip_parity_fix = 0, strip_closed = 0, strip_nonmanifold = 0, strip_posdeg = 0,
+       strip_zero = 0, strip_one = 0, strip_components = 0, strip_designed = 0, strip_no_table = 0, known_d14 = 0, known_unsup = 0, known_d14_seen = 0, known_unsup_seen = 0;
 } st;
 
 // the checks shared by dv and dav on one attribute; npoints = number of points whose value must be preserved
@@ -350,6 +351,33 @@ static std::vector<Tri> decode_strips(const std::vector<uint32_t> &s, bool resta
   return out;
 }
 
+// the per-corner attribute bytes of a list of point-id triangles, each face rotation-canonical, sorted
+static bool tri_bytes(const GeoSpec &g, const std::vector<Tri> &ts, bool drop_degenerate, std::vector<FaceBytes> *out) {
+  out->clear();
+  for (auto &t : ts) {
+    if (drop_degenerate && (t[0] == t[1] || t[0] == t[2] || t[1] == t[2])) continue;
+    FaceBytes fb;
+    if (!face_bytes(g, t, &fb)) return false;
+    out->push_back(canon_fb(fb));
+  }
+  std::sort(out->begin(), out->end());
+  return true;
+}
+// raw (unsorted, not canonicalised) decode, for the attribute-bytes comparison
+static std::vector<Tri> decode_raw(const std::vector<uint32_t> &s, bool restart, uint32_t ridx) {
+  std::vector<Tri> out;
+  std::vector<std::vector<uint32_t>> segs(1);
+  for (uint32_t v : s) { if (restart && v == ridx) segs.emplace_back(); else segs.back().push_back(v); }
+  for (auto &g : segs)
+    for (size_t j = 0; j + 2 < g.size(); j++)
+      out.push_back((j & 1) ? Tri{{g[j + 1], g[j], g[j + 2]}} : Tri{{g[j], g[j + 1], g[j + 2]}});
+  return out;
+}
+
+// THE STRIP CLAUSE, checked directly on the implementation for both modes: the real index stream is decoded
+// (restart: split at the restart index, alternating winding per run; degenerate: ONE strip, alternating winding,
+// triangles with two equal indices dropped) and must give the mesh's triangles as a multiset up to rotation
+// (orientation kept), in point ids AND in per-corner attribute bytes.
 static void check_strips(Out &o, const Mesh &m, const std::string &lhs) {
   if (m.GetNamedAttribute(GeometryAttribute::POSITION) == nullptr) return;
   GeoSpec g = snap_geo(m, &m);
@@ -360,6 +388,10 @@ static void check_strips(Out &o, const Mesh &m, const std::string &lhs) {
   }
   std::sort(all.begin(), all.end()); std::sort(nondeg.begin(), nondeg.end());
   if (all.size() != nondeg.size()) st.strips_skipped_degenerate++;
+  if (g.faces.empty()) st.strip_zero++;
+  if (g.faces.size() == 1) st.strip_one++;
+  std::vector<FaceBytes> all_b, nondeg_b;
+  const bool bytes_ok = tri_bytes(g, g.faces, false, &all_b) && tri_bytes(g, g.faces, true, &nondeg_b);
   const uint32_t ridx = 0xFFFFFFFFu;
   // correspondence with Model/Strips.v: the model takes the library's opposite-corner table as an input
   std::string opp_s = "null";
@@ -367,36 +399,70 @@ static void check_strips(Out &o, const Mesh &m, const std::string &lhs) {
     auto ct = CreateCornerTableFromPositionAttribute(&m);
     if (ct) {
       opp_s.clear();
+      bool seam = false, boundary = false, posdeg = false;
       for (uint32_t c = 0; c < 3 * m.num_faces(); c++) {
-        CornerIndex oc = ct->Opposite(CornerIndex(c));
+        CornerIndex ci(c), oc = ct->Opposite(ci);
         if (c) opp_s += ",";
         opp_s += (oc == kInvalidCornerIndex) ? std::string("-1") : U(oc.value());
+        if (oc == kInvalidCornerIndex) { boundary = true; continue; }
+        // an attribute seam: the two faces use different point ids along the shared edge
+        if (m.CornerToPointId(ct->Next(ci)) != m.CornerToPointId(ct->Previous(oc)) ||
+            m.CornerToPointId(ct->Previous(ci)) != m.CornerToPointId(ct->Next(oc))) seam = true;
+      }
+      for (FaceIndex f(0); f < m.num_faces(); ++f) {
+        const Mesh::Face &fc = m.face(f);
+        if (ct->IsDegenerated(f) && fc[0] != fc[1] && fc[0] != fc[2] && fc[1] != fc[2]) posdeg = true;
       }
       if (m.num_faces() == 0) opp_s = "-";
-    }
+      if (seam) st.strip_seam++;
+      if (!boundary && m.num_faces() > 0) st.strip_closed++;
+      if (posdeg) st.strip_posdeg++;
+      if (ct->NumNewVertices() > 0) st.strip_nonmanifold++;
+    } else st.strip_no_table++;
   }
   auto idx_str = [&](const std::vector<uint32_t> &v) {
     if (v.empty()) return std::string("-");
     std::string s; for (size_t i = 0; i < v.size(); i++) { if (i) s += ","; s += (v[i] == ridx) ? std::string("R") : U(v[i]); } return s; };
+  size_t rsize = 0; int nstrips = 0; bool r_ok = false;
   {
     MeshStripifier sp; std::vector<uint32_t> idx;
     bool ok = sp.GenerateTriangleStripsWithPrimitiveRestart(m, ridx, std::back_inserter(idx));
     o.c("strip r " + faces_str(g.faces) + " " + opp_s, ok ? idx_str(idx) : "fail");
-    if (!ok) o.fail("strips restart: generation failed: " + lhs);
+    if (!ok) { if (opp_s != "null") o.fail("strips restart: generation failed although a corner table exists: " + lhs); }
     else {
       // a face with two equal point ids is emitted as it is; compare all faces
       if (decode_strips(idx, true, ridx, false) != all) o.fail("strips restart: decoded triangles differ from the mesh faces: " + lhs);
+      std::vector<FaceBytes> db;
+      if (bytes_ok && (!tri_bytes(g, decode_raw(idx, true, ridx), false, &db) || db != all_b))
+        o.fail("strips restart: decoded per-corner attribute bytes differ from the mesh's: " + lhs);
+      for (uint32_t v : idx) if (v != ridx && v >= g.np) { o.fail("strips restart: index is not a point id: " + lhs); break; }
       if (sp.num_strips() > 1) st.strip_multi++;
       size_t nr = std::count(idx.begin(), idx.end(), ridx);
       if (!g.faces.empty() && (int)nr + 1 != sp.num_strips()) o.fail("strips restart: num_strips() does not match the restart indices: " + lhs);
+      if (g.faces.empty() && !idx.empty()) o.fail("strips restart: output for a mesh without faces: " + lhs);
+      rsize = idx.size(); nstrips = sp.num_strips(); r_ok = true;
     }
   }
   {
     MeshStripifier sp; std::vector<uint32_t> idx;
     bool ok = sp.GenerateTriangleStripsWithDegenerateTriangles(m, std::back_inserter(idx));
     o.c("strip d " + faces_str(g.faces) + " " + opp_s, ok ? idx_str(idx) : "fail");
-    if (!ok) o.fail("strips degenerate: generation failed: " + lhs);
-    else if (decode_strips(idx, false, ridx, true) != nondeg) o.fail("strips degenerate: decoded triangles differ from the non-degenerate mesh faces: " + lhs);
+    if (!ok) { if (opp_s != "null") o.fail("strips degenerate: generation failed although a corner table exists: " + lhs); }
+    else {
+      if (decode_strips(idx, false, ridx, true) != nondeg) o.fail("strips degenerate: decoded triangles differ from the non-degenerate mesh faces: " + lhs);
+      std::vector<FaceBytes> db;
+      if (bytes_ok && (!tri_bytes(g, decode_raw(idx, false, ridx), true, &db) || db != nondeg_b))
+        o.fail("strips degenerate: decoded per-corner attribute bytes differ from the mesh's: " + lhs);
+      for (uint32_t v : idx) if (v >= g.np) { o.fail("strips degenerate: index is not a point id: " + lhs); break; }
+      if (g.faces.empty() && !idx.empty()) o.fail("strips degenerate: output for a mesh without faces: " + lhs);
+      if (r_ok && sp.num_strips() != nstrips) o.fail("strips: the two modes made a different number of strips: " + lhs);
+      // length = restart length + one more index per separator + one per parity fix-up
+      if (r_ok && nstrips > 0) {
+        long fix = (long)idx.size() - (long)rsize - (nstrips - 1);
+        if (fix < 0 || fix > nstrips - 1) o.fail("strips degenerate: stream length is not restart length + separators + parity fix-ups: " + lhs);
+        else if (fix > 0) st.strip_parity_fix++;
+      }
+    }
   }
   st.strips++;
 }
@@ -711,6 +777,131 @@ static uint32_t gen_soup(Rng &r, std::vector<InSpec> &ins) {
   return nf;
 }
 
+// ---- meshes for the strip clause: an abstract indexed mesh over POSITION value ids, then point ids with seams
+static void strip_shape(Rng &r, int shape, uint32_t base, std::vector<Tri> &tris, uint32_t *nv_out) {
+  uint32_t nv = 0;
+  auto add = [&](uint32_t a, uint32_t b, uint32_t c) { tris.push_back(Tri{{base + a, base + b, base + c}}); };
+  switch (shape) {
+    case 0: {  // grid with boundary
+      uint32_t w = 1 + (uint32_t)r.below(6), h = 1 + (uint32_t)r.below(5);
+      nv = (w + 1) * (h + 1);
+      for (uint32_t y = 0; y < h; y++) for (uint32_t x = 0; x < w; x++) {
+        uint32_t a = y * (w + 1) + x, b = a + 1, c = a + w + 1, d = c + 1;
+        if (r.chance(80)) { add(a, b, c); add(b, d, c); } else { add(a, b, d); add(a, d, c); }
+      }
+      break; }
+    case 1: {  // fan, open or closed
+      uint32_t n = 3 + (uint32_t)r.below(12); nv = n + 1;
+      for (uint32_t i = 0; i + 1 < n; i++) add(0, 1 + i, 2 + i);
+      if (r.chance(50)) add(0, n, 1);
+      break; }
+    case 2: {  // one long strip, every length parity
+      uint32_t n = 1 + (uint32_t)r.below(40); nv = n + 2;
+      for (uint32_t i = 0; i < n; i++) { if (i & 1) add(i + 1, i, i + 2); else add(i, i + 1, i + 2); }
+      break; }
+    case 3: {  // closed band (cylinder wall): a strip that runs into its own start
+      uint32_t n = 2 + (uint32_t)r.below(8); nv = 2 * n;
+      for (uint32_t i = 0; i < n; i++) { uint32_t j = (i + 1) % n; add(i, n + i, j); add(j, n + i, n + j); }
+      break; }
+    case 4: {  // torus: closed manifold, no boundary at all
+      uint32_t w = 3 + (uint32_t)r.below(4), h = 3 + (uint32_t)r.below(3); nv = w * h;
+      for (uint32_t y = 0; y < h; y++) for (uint32_t x = 0; x < w; x++) {
+        uint32_t a = y * w + x, b = y * w + (x + 1) % w, c = ((y + 1) % h) * w + x, d = ((y + 1) % h) * w + (x + 1) % w;
+        add(a, b, c); add(b, d, c);
+      }
+      break; }
+    case 5: {  // tetrahedron / octahedron
+      if (r.chance(50)) { nv = 4; add(0, 1, 2); add(0, 3, 1); add(1, 3, 2); add(2, 3, 0); }
+      else { nv = 6; for (uint32_t i = 0; i < 4; i++) { uint32_t j = (i + 1) % 4; add(4, i, j); add(5, j, i); } }
+      break; }
+    case 6: {  // Moebius band: not orientable, the corner table has to cut it somewhere
+      uint32_t n = 3 + (uint32_t)r.below(6); nv = 2 * n;
+      for (uint32_t i = 0; i + 1 < n; i++) { add(i, n + i, i + 1); add(i + 1, n + i, n + i + 1); }
+      add(n - 1, 2 * n - 1, n); add(n, 2 * n - 1, 0);
+      break; }
+    case 7: {  // random soup over few vertices: non-manifold edges and vertices, duplicates, degenerate faces
+      nv = 1 + (uint32_t)r.below(10);
+      uint32_t nf = 1 + (uint32_t)r.below(r.chance(85) ? 20 : 60);
+      for (uint32_t i = 0; i < nf; i++) add((uint32_t)r.below(nv), (uint32_t)r.below(nv), (uint32_t)r.below(nv));
+      break; }
+    case 8: {  // k faces on one edge, bow-tie
+      if (r.chance(50)) { uint32_t k = 3 + (uint32_t)r.below(4); nv = 2 + k; for (uint32_t i = 0; i < k; i++) { if (r.chance(50)) add(0, 1, 2 + i); else add(1, 0, 2 + i); } }
+      else { nv = 5; add(0, 1, 2); add(0, 3, 4); if (r.chance(50)) { nv = 7; add(0, 5, 6); } }
+      break; }
+    default: {  // tiny
+      switch (r.below(4)) {
+        case 0: nv = 3; break;                                   // no face
+        case 1: nv = 3; add(0, 1, 2); break;                     // one face
+        case 2: nv = 4; add(0, 1, 2); add(2, 1, 3); break;       // two faces sharing an edge
+        default: nv = 3; add(0, 1, 2); add(0, 2, 1); break;      // a face and its mirror image
+      }
+      break; }
+  }
+  *nv_out = nv;
+}
+static GeoSpec gen_strip_mesh(Rng &r, std::string *what) {
+  std::vector<Tri> tris; uint32_t nv = 0;
+  int ncomp = r.chance(70) ? 1 : 2 + (int)r.below(2);
+  *what = "";
+  for (int k = 0; k < ncomp; k++) {
+    int shape = (int)r.below(10); uint32_t n1 = 0;
+    strip_shape(r, shape, nv, tris, &n1);
+    nv += n1; *what += (k ? "+" : "") + S(shape);
+  }
+  if (ncomp > 1) st.strip_components++;
+  // drop / shuffle / flip / duplicate some faces; add degenerate ones
+  if (r.chance(30) && tris.size() > 1) { size_t nd = 1 + r.below(std::max<size_t>(1, tris.size() / 4)); for (size_t i = 0; i < nd && tris.size() > 1; i++) tris.erase(tris.begin() + r.below(tris.size())); }
+  if (r.chance(40)) for (size_t i = tris.size(); i > 1; i--) std::swap(tris[i - 1], tris[r.below(i)]);
+  if (r.chance(15) && !tris.empty()) { Tri &t = tris[r.below(tris.size())]; std::swap(t[1], t[2]); }
+  if (r.chance(10) && !tris.empty()) tris.insert(tris.begin() + r.below(tris.size() + 1), tris[r.below(tris.size())]);
+  if (r.chance(15) && nv > 1) { uint32_t a = (uint32_t)r.below(nv), b = (uint32_t)r.below(nv); tris.insert(tris.begin() + r.below(tris.size() + 1), r.chance(50) ? Tri{{a, a, b}} : Tri{{a, b, a}}); }
+  if (nv == 0) nv = 1;
+  // point ids: point (v, 0) for every vertex; faces of a random region use (v, 1) for the vertices of a random set
+  std::vector<char> in_b(tris.size(), 0), split(nv, 0);
+  const bool seams = r.chance(55);
+  if (seams) {
+    int pf = 10 + (int)r.below(60), pv = 20 + (int)r.below(80);
+    if (r.chance(50)) { size_t cut = r.below(tris.size() + 1); for (size_t f = cut; f < tris.size(); f++) in_b[f] = 1; }   // a contiguous run of faces
+    else for (size_t f = 0; f < tris.size(); f++) in_b[f] = r.chance(pf);
+    for (uint32_t v = 0; v < nv; v++) split[v] = r.chance(pv);
+  }
+  std::map<std::pair<uint32_t, int>, uint32_t> pid;
+  std::vector<uint32_t> pos_of;
+  auto point = [&](uint32_t v, int variant) {
+    auto k = std::make_pair(v, variant);
+    auto it = pid.find(k);
+    if (it != pid.end()) return it->second;
+    uint32_t id = (uint32_t)pos_of.size(); pid[k] = id; pos_of.push_back(v); return id;
+  };
+  const bool vertex_order = r.chance(50);   // point ids in vertex order first (identity-like) or in order of use
+  if (vertex_order) for (uint32_t v = 0; v < nv; v++) point(v, 0);
+  GeoSpec g;
+  for (size_t f = 0; f < tris.size(); f++) {
+    Tri t;
+    for (int c = 0; c < 3; c++) t[c] = point(tris[f][c], (in_b[f] && split[tris[f][c]]) ? 1 : 0);
+    // a face whose point ids differ but whose positions coincide (position-degenerate)
+    if (r.chance(3)) { uint32_t v = tris[f][0]; t[1] = point(v, 2); }
+    g.faces.push_back(t);
+  }
+  if (r.chance(10)) { point(0, 7); }   // an isolated point
+  g.np = (uint32_t)pos_of.size();
+  if (g.np == 0) { g.np = 1; pos_of.push_back(0); }
+  AttSpec pa; pa.type = GeometryAttribute::POSITION; pa.ncomp = 1; pa.dtype = 4 /* UINT16 */;
+  for (uint32_t v = 0; v < nv; v++) pa.vals.push_back(Bytes{(uint8_t)(v & 255), (uint8_t)(v >> 8)});
+  bool ident_possible = (g.np == nv);
+  for (uint32_t q = 0; ident_possible && q < g.np; q++) if (pos_of[q] != q) ident_possible = false;
+  if (ident_possible && r.chance(60)) pa.ident = true; else { pa.ident = false; pa.map = pos_of; }
+  AttSpec ta; ta.type = GeometryAttribute::TEX_COORD; ta.ncomp = 1; ta.dtype = 4; ta.ident = true;   // one value per point: what a seam separates
+  for (uint32_t q = 0; q < g.np; q++) ta.vals.push_back(Bytes{(uint8_t)(q & 255), (uint8_t)((q >> 8) | 0x80)});
+  if (r.chance(50)) { g.atts.push_back(pa); g.atts.push_back(ta); } else { g.atts.push_back(ta); g.atts.push_back(pa); }
+  return g;
+}
+static void case_strip_mesh(Out &o, const GeoSpec &g, const std::string &what) {
+  auto m = build_mesh(g);
+  check_strips(o, *m, "stripmesh[" + what + "] " + geo_str(g));
+  st.strip_designed++;
+}
+
 int main(int argc, char **argv) {
   if (argc < 4) { fprintf(stderr, "usage: h_C14 quick|thorough seed out\n"); return 2; }
   const bool thorough = !strcmp(argv[1], "thorough");
@@ -761,6 +952,20 @@ int main(int argc, char **argv) {
       else { case_cl(o, s.g, 14); case_cl(o, s.g, (int)r.below(16)); }
     }
   }
+  // ---- strip clause on designed meshes (boundaries, closed surfaces, closed bands, Moebius, non-manifold, seams,
+  //      degenerate faces, several components, 0/1 faces) and on arbitrary geometries with a POSITION attribute
+  for (int i = 0; i < 500 * K; i++) {
+    std::string what; GeoSpec g = gen_strip_mesh(r, &what);
+    case_strip_mesh(o, g, what);
+  }
+  for (int i = 0; i < 150 * K; i++) {
+    GeoSpec g = gen_geo(r, true, true, false);
+    if (pos_index(g) < 0) continue;
+    // the stripifier needs every point to have a POSITION value: keep the well-formed ones
+    bool wf = true;
+    for (auto &f : g.faces) for (int c = 0; c < 3; c++) { uint32_t v; if (f[c] >= g.np || !midx(g.atts[pos_index(g)], f[c], &v)) wf = false; }
+    if (wf) case_strip_mesh(o, g, "geo");
+  }
   // ---- pcb
   for (int i = 0; i < 350 * K; i++) {
     uint32_t np = gen_np(r);
@@ -775,7 +980,10 @@ int main(int argc, char **argv) {
   o.note("soup merged points in " + S(st.soup_merged) + "; pcb merged points in " + S(st.pcb_merged));
   o.note("known classes seen: more-than-4-components " + S(st.known_d14_seen) + " (reported " + S(st.known_d14) + "), unsupported data type " +
          S(st.known_unsup_seen) + " (reported " + S(st.known_unsup) + ")");
-  o.note("strips checked=" + S(st.strips) + " (more than one strip: " + S(st.strip_multi) + ", meshes with degenerate faces: " + S(st.strips_skipped_degenerate) + ")");
+  o.note("strips checked=" + S(st.strips) + " (designed/geo meshes: " + S(st.strip_designed) + ", more than one strip: " + S(st.strip_multi) + ", meshes with point-degenerate faces: " + S(st.strips_skipped_degenerate) +
+         ", with position-degenerate faces: " + S(st.strip_posdeg) + ", with attribute seams: " + S(st.strip_seam) + ", without any boundary: " + S(st.strip_closed) +
+         ", non-manifold (vertices split by the corner table): " + S(st.strip_nonmanifold) + ", several components: " + S(st.strip_components) +
+         ", 0 faces: " + S(st.strip_zero) + ", 1 face: " + S(st.strip_one) + ", parity fix-up used: " + S(st.strip_parity_fix) + ", no corner table: " + S(st.strip_no_table) + ")");
   fprintf(stderr, "h_C14: %ld cases, %ld direct failures\n", o.cases, o.fails);
   return 0;
 }
